@@ -57,4 +57,26 @@ PROPS = {
         "quick": {"budget_s": 100, "chunk": 15},
         "thorough": {"budget_s": 1500, "chunk": 15, "minimise_s": 180},
     },
+    "C14": {
+        "test": "TestC14",
+        "level": "fault_enumeration",
+        "world": "A: one real Network engine node; scripted persistent subscribers registered through Network.Subscribe at every start",
+        "rule": "enum phase: each case is a seeded admission history with scripted subscribers (succeed / fail k times / incomplete k times / fatal / never); "
+                "every crash point of the armed window (before a write transaction, before commit, after commit before the notification, between the "
+                "AfterCommit hooks - for admission, retry bookkeeping and completion writes alike) is fired once in turn, each followed by a restart; "
+                "sampled phase: seeded histories, schedules, fault subsets (crash points, KV errors in the admission path, restarts at arbitrary scheduler "
+                "steps). Non-trivial: at least one receiver call and one fault or non-FIFO decision; distinct = (case, crash point) signatures plus trace hashes.",
+        "invariants": ["C14.admitted-only", "C14.at-least-once", "C14.failed-visible", "C14.no-redelivery", "C14.backoff", "C14.replay-at-start"],
+        "assumptions": KV_ASSUME + ["storage errors are injected in the admission path only; the fault model of delivery is the process stop and the subscriber's own behaviour",
+                                    "liveness clauses are evaluated 2 virtual hours after faults stop (10 retries take about 17 virtual minutes)"],
+        "probes_expected": ["restart-after-crash", "crash.after-commit", "crash.before-commit", "crash.between-hooks", "crash.any-step"],
+        "quick": {"phases": [
+            {"name": "enum", "env": {"VERIF_MODE": "enum"}, "budget_s": 70, "chunk": 1, "base": 1000000},
+            {"name": "sampled", "budget_s": 60, "chunk": 10},
+        ]},
+        "thorough": {"phases": [
+            {"name": "enum", "env": {"VERIF_MODE": "enum"}, "budget_s": 900, "chunk": 1, "base": 1000000},
+            {"name": "sampled", "budget_s": 900, "chunk": 10},
+        ], "minimise_s": 180},
+    },
 }
